@@ -64,7 +64,7 @@ pub fn c01(ctx: &mut Ctx) {
             ctx.case(&format!("word-{w:04x}-tail{ti}"), &|| format!("decode-message {} {}", hexz(&b), entry_text(&e)), || check_msg(&b, &e));
         }
     }
-    for (i, b) in noise(1500, 48).iter().enumerate() {
+    for (i, b) in noise(20000, 64).iter().enumerate() {
         for e in entries_few() {
             ctx.case(&format!("noise{i}/{}", entry_text(&e)), &|| format!("decode-message {} {}", hexz(b), entry_text(&e)), || check_msg(b, &e));
         }
